@@ -39,8 +39,14 @@ void Interpolation::Compute_Steffen_Coefficients()
 	std::vector<double> dy(N), p(N);
 	for(unsigned int i = 0; i < N; i++)
 	{
+		// Only two points: straight line
+		if(N == 2)
+		{
+			p[i]  = s[0];
+			dy[i] = s[0];
+		}
 		// First point
-		if(i == 0)
+		else if(i == 0)
 		{
 			p[i]  = s[i] * (1.0 + h[i] / (h[i] + h[i + 1])) - s[i + 1] * h[i] / (h[i] + h[i + 1]);
 			dy[i] = (Sign(p[i]) + Sign(s[i])) * std::min(1.0 * fabs(s[i]), 0.5 * fabs(p[i]));
@@ -190,6 +196,11 @@ Interpolation::Interpolation(const std::vector<double>& arg_values, const std::v
 	if(x_values.size() != function_values.size())
 	{
 		std::cerr << "Error in libphysica::Interpolation::Interpolation(): Unequal length of argument and function lists: " << x_values.size() << " vs " << function_values.size() << std::endl;
+		std::exit(EXIT_FAILURE);
+	}
+	if(N < 2)
+	{
+		std::cerr << "Error in libphysica::Interpolation::Interpolation(): At least two points are required, not " << N << "." << std::endl;
 		std::exit(EXIT_FAILURE);
 	}
 	for(unsigned int i = 1; i < N; i++)
@@ -355,6 +366,15 @@ Interpolation_2D::Interpolation_2D()
 Interpolation_2D::Interpolation_2D(std::vector<double> x_val, std::vector<double> y_val, std::vector<std::vector<double>> func_values, double x_dim, double y_dim, double f_dim)
 : N_x(x_val.size()), N_y(y_val.size()), x_values(x_val), y_values(y_val), function_values(func_values), prefactor(1.0)
 {
+	// Some initial checks
+	bool valid_dimensions = (function_values.size() == N_x);
+	for(unsigned int i = 0; valid_dimensions && i < N_x; i++)
+		valid_dimensions = (function_values[i].size() == N_y);
+	if(!valid_dimensions)
+	{
+		std::cerr << "Error in libphysica::Interpolation_2D::Interpolation_2D(): The table of function values does not have dimensions " << N_x << "x" << N_y << "." << std::endl;
+		std::exit(EXIT_FAILURE);
+	}
 	// Transform units
 	if(x_dim > 0.0)
 		for(unsigned int i = 0; i < N_x; i++)
